@@ -129,17 +129,20 @@ let model_snap (s : state) : isnap list =
 
 let show_snap l = String.concat " " (List.map (fun e -> Printf.sprintf "%d:%s:%s:%s:%d" e.ik e.iv e.ist e.il e.ir) l)
 
+(* fields excluded from the comparison (--ignore=order,stamp,value,repl) *)
+let ign_order = ref false and ign_stamp = ref false and ign_value = ref false and ign_repl = ref false
+
 (* returns None if equal, Some description otherwise *)
 let compare_snap ~lru (impl : isnap list) (model : isnap list) : string option =
-  let impl, model = if lru then impl, model
+  let impl, model = if lru && not !ign_order then impl, model
     else List.sort (fun a b -> compare a.ik b.ik) impl, List.sort (fun a b -> compare a.ik b.ik) model in
   if List.map (fun e -> e.ik) impl <> List.map (fun e -> e.ik) model then
     Some (Printf.sprintf "keys/order impl=[%s] model=[%s]" (show_snap impl) (show_snap model))
   else
     let bad = List.filter (fun (i, m) ->
-      i.il <> m.il || i.ir <> m.ir
-      || (i.iv <> "?" && i.iv <> m.iv)
-      || (lru && i.ist <> "?" && i.iv <> "?" && i.iv <> "-" && i.ist <> m.ist)) (List.combine impl model) in
+      i.il <> m.il || (not !ign_repl && i.ir <> m.ir)
+      || (not !ign_value && i.iv <> "?" && i.iv <> m.iv)
+      || (lru && not !ign_stamp && i.ist <> "?" && i.iv <> "?" && i.iv <> "-" && i.ist <> m.ist)) (List.combine impl model) in
     match bad with
     | [] -> None
     | (i, _) :: _ -> Some (Printf.sprintf "entry %d impl=[%s] model=[%s]" i.ik (show_snap impl) (show_snap model))
@@ -260,7 +263,13 @@ let process_trace_full id backend (lines : (char * string) list) : verdict =
     !res
 
 let () =
-  let files = List.tl (Array.to_list Sys.argv) in
+  let args = List.tl (Array.to_list Sys.argv) in
+  let files = List.filter (fun a ->
+    if String.length a > 9 && String.sub a 0 9 = "--ignore=" then begin
+      List.iter (function "order" -> ign_order := true | "stamp" -> ign_stamp := true
+                        | "value" -> ign_value := true | "repl" -> ign_repl := true | _ -> ())
+        (String.split_on_char ',' (String.sub a 9 (String.length a - 9)));
+      false end else true) args in
   if files = [] then (prerr_endline "usage: cosim <trace files...>"; exit 2);
   let first_mis = ref [] in
   List.iter (fun file ->
